@@ -380,6 +380,11 @@ def enumerated(tier):
             for tcp in ("refuse", "ok"):
                 for ca in (None, 1, 64 * 10):
                     yield {"manager": mgr, "mdns": {"kitchen": mo}, "dns": {"kitchen.local": DNS_OUT[0] if tcp == "ok" else DNS_OUT[3]}, "ops": [{"op": "client", "tcp": tcp, "address": "kitchen.local", "cancel_after": ca}, res_]}
+    # ReconnectLogic stopped while its attempt is still resolving (slow / hanging / empty mDNS answers)
+    for mgr in ("empty", "supplied_async"):
+        for mo in (MDNS_HANG, {"outcome": "ok", "v4": ["10.1.0.1"], "delay": 1.0}, {"outcome": "none", "delay": 2.0}, {"outcome": "raise", "delay": 1.0}):
+            for wait in (0.5, 1, 2, 3, 31):
+                yield {"manager": mgr, "mdns": {"kitchen": mo}, "dns": {"kitchen.local": DNS_OUT[0]}, "ops": [{"op": "rl", "tcp": "refuse", "pass_instance": False, "wait": wait, "address": "kitchen.local"}, res_]}
     for mgr in managers[1:]:
         for tcp in ("refuse", "ok"):
             for pi in (False, True):
